@@ -1576,6 +1576,86 @@ def against_reference(run: "Run", sig: str, cls, ref, d: Defn, rep: dict, expect
                             {**rep, "stage": "inheritance"})
 
 
+def visible_converters(cls, user_hooks=()):
+    """the container converters (tuple / set) that attribute lookup finds on `cls` for its current field names"""
+    out = []
+    for n in cls.names:
+        if n in user_hooks:
+            continue
+        h = getattr(cls, "fix_unpack_" + n, None)
+        if h is tuple or h is set:
+            out.append(f"{n}={h.__name__}(x)")
+    return ",".join(out)
+
+
+def reannotate(run: "Run", n_cases: int):
+    """a dataclass payload that declares a parent's container field again with another container (tuple -> list / set,
+    ...), in both instantiation orders: every class must decode like the plain definition of ITS OWN annotations"""
+    from ipv8.messaging.lazy_payload import VariablePayload
+    from ipv8.messaging.payload_dataclass import DataClassPayload
+    ctx, rng = run.ctx, run.ctx.rng
+    kinds = {"list": list, "tuple": tuple, "set": set}
+    for case in range(n_cases):
+        k1, k2 = rng.sample(["list", "tuple", "set"], 2)
+        elem, fmt = rng.choice([(int, "arrayH-q"), (bool, "arrayH-?"), (float, "arrayH-d")])
+        order = ["parent-first", "child-first", "only-child", "parent-child-parent"][case % 4]
+        uid = next(_uid)
+        extra = rng.random() < 0.5
+        par = dataclasses.make_dataclass(f"RP{uid}", [("a", int), ("t", kinds[k1][elem])], bases=(DataClassPayload,))
+        cfields = [("t", kinds[k2][elem])] + ([("z", int, dataclasses.field(default=4))] if extra else [])
+        chi = dataclasses.make_dataclass(f"RC{uid}", cfields, bases=(par,))
+        par.__module__ = chi.__module__ = generated_module()
+        classes = [par, chi]
+
+        def plain(kind, with_z, name):
+            d = Defn()
+            d.uid = next(_uid)
+            d.fields = [Field("prim", "q", None, ["a"], "int"),
+                        Field("prim", fmt, None, ["t"], {"list": "co:", "tuple": "cot:", "set": "cos:"}[kind] + elem.__name__, kind)]
+            if with_z:
+                d.fields.append(Field("prim", "q", None, ["z"], "int"))
+                d.defaults = {"z": 4}
+                d.user_init = "nokw"
+            d.names = [f.names[0] for f in d.fields]
+            if kind != "list":
+                d.fu["t"] = kind
+            d.nform = {"I": {}, "C": {}, "D": {}}
+            ns = namespace_for(d, "I")
+            ns.update({"format_list": [f.fmt for f in d.fields], "names": list(d.names)})
+            return d, type(name, (VariablePayload,), ns)
+
+        defs_refs = [plain(k1, False, f"RPR{uid}"), plain(k2, extra, f"RCR{uid}")]
+        evs = {"parent-first": [0, 1], "child-first": [1, 0], "only-child": [1], "parent-child-parent": [0, 1, 0]}[order]
+        ctx.count(f"reannotate:{k1}->{k2}:{order}")
+        rep = {"reannotate": {"parent": k1, "child": k2, "element": elem.__name__, "extra_field": extra, "order": order}}
+        for lv in evs:
+            vals = [1, kinds[[k1, k2][lv]]([elem(1), elem(0)])] + ([9] if (lv == 1 and extra) else [])
+            r = attempt(lambda: classes[lv](*vals))
+            if r[0] != "ok":
+                ctx.oracle_fail("dataclass.reannotate:binding", f"instantiating class {lv} raises {r[1]}", {**rep, "stage": "inheritance"})
+        tys = f"[int,{defs_refs[0][0].fields[1].ty}]/[{defs_refs[1][0].fields[1].ty}" + (",int]" if extra else "]")
+        nms = "[a,t]/[t" + (",z]" if extra else "]")
+        def effective(lv):
+            """the container converter that decoding with class lv really applies (behavioural probe; classes that no
+            instantiation has converted are not probed: calling them would convert them)"""
+            if lv not in evs and not any(j < lv for j in evs):
+                return ""
+            probe = [1, [elem(1), elem(0)]] + ([4] if len(classes[lv].names) == 3 else [])
+            r = attempt(lambda: classes[lv].from_unpack_list(*probe))
+            k = type(getattr(r[1], "t", None)).__name__ if r[0] == "ok" else "error"
+            return "" if k == "list" else f"t={k}(x)"
+
+        real = "ok " + " ".join(f"{lv}:" + ",".join(canon_fmt(x) for x in classes[lv].format_list) + ";"
+                                + ",".join(classes[lv].names) + ";" + effective(lv) for lv in range(2))
+        run.ask(f"hier {tys} {nms} [{','.join(map(str, evs))}]", lambda rp: rp, real,
+                "class-level data and container converters after re-annotating a field", rep)
+        for lv in sorted(set(evs)):
+            against_reference(run, "dataclass.reannotate", classes[lv], defs_refs[lv][1], defs_refs[lv][0],
+                              {**rep, "class": lv}, None)
+        ctx.case(("reannotate", k1, k2, order, extra), True)
+    run.flush()
+
+
 def inheritance(run: "Run", n_cases: int):
     from ipv8.messaging.lazy_payload import VariablePayload, VariablePayloadWID, vp_compile
     from ipv8.messaging.payload_dataclass import DataClassPayload
@@ -1646,7 +1726,8 @@ def inheritance(run: "Run", n_cases: int):
             nms = "/".join("[" + ",".join(f.names[0] for f in full.fields[ends[lv] - cuts[lv]:ends[lv]]) + "]"
                            for lv in range(levels))
             real = "ok " + " ".join(f"{lv}:" + ",".join(canon_fmt(x) for x in classes[lv].format_list) + ";"
-                                    + ",".join(classes[lv].names) for lv in range(levels))
+                                    + ",".join(classes[lv].names) + ";" + visible_converters(classes[lv], full.fu)
+                                    for lv in range(levels))
             run.ask(f"hier {tys} {nms} [{','.join(map(str, evs))}]", lambda rp: rp, real,
                     "class-level format_list/names along an inheritance chain", rep)
             for lv in range(levels):
@@ -1823,10 +1904,9 @@ def dataclass_options(run: "Run", n: int):
         ctx.case(("dataclass-options", kind, fmt), True)
         if ra == rb:
             continue
-        # what the model predicts for the code as it is: the factory field's default is dataclasses' "<factory>" marker
-        # (splice gives another value), the kw_only signature is not a valid positional one (compile error)
-        predicted = (kind == "kw_only" and ra[0] == "err") or \
-                    (kind == "default_factory" and ra[0] == "ok" and "factory" in repr(getattr(a[1], "b", "")).lower())
+        # known finding: these dataclass options are unsupported and REFUSED (an exception at the first instantiation);
+        # constructing an object whose field silently holds something else than factory() is a new failure
+        predicted = ra[0] == "err"      # a loud refusal; a silently wrong default value is never "known"
         sig = "convert_to_payload:dataclass-field-options" if predicted else "convert_to_payload:dataclass-field-options-unexpected"
         ctx.oracle_fail(sig, f"dataclass payload with {kind}: {str(ra)[:160]} but the plain definition with that default gives "
                         f"{str(rb)[:160]}", {"dataclass_options": {"kind": kind, "format": fmt}, "stage": "dataclass-options"})
@@ -1885,6 +1965,7 @@ def run_all(ctx: Ctx, n_defs: int, use_model: bool, small_n: int, per_shipped: i
     decode_first(r, ctx.scale(30, 300))
     inheritance(r, ctx.scale(120, 1500))
     dataclass_options(r, ctx.scale(8, 40))
+    reannotate(r, ctx.scale(48, 400))
     for i in range(n_defs):
         d = gen_defn(ctx.rng, r.formats)
         checked(r, d)
@@ -1933,6 +2014,7 @@ def search(ctx: Ctx, reason: str):
     small_scope(r, 3)
     shipped(r, 10)
     inheritance(r, 400)
+    reannotate(r, 100)
     for _ in range(1500):
         checked(r, gen_defn(ctx.rng, r.formats))
 
